@@ -43,6 +43,7 @@ structure Obs where
 inductive StepKind where
   | msg (mt : MsgType)   -- one of the four metadata messages
   | send                 -- bank MsgSend; its signer is the sender
+  | mwithdraw            -- marker MsgWithdraw; its signer is the administrator
   | env                  -- grant / revoke / marker access change
   deriving DecidableEq, Repr
 
@@ -96,6 +97,10 @@ def authorises (pre : Obs) (st : StepInfo) (h : Addr) : Bool :=
     || (match pre.markers.find? (·.addr = h) with                -- h is a marker, a signer has withdraw on it
         | some m => st.signers.any (m.has · .withdraw)
         | none => false)
+  | .mwithdraw =>                                                 -- only the marker route applies
+    (match pre.markers.find? (·.addr = h) with
+     | some m => st.signers.any (m.has · .withdraw)
+     | none => false)
   | .env => false
 
 /-- when `h'` is a restricted marker a signer has deposit on it -/
@@ -159,6 +164,7 @@ def stepInfo (op : Op) (accepted : Bool) : StepInfo :=
   | .updvo _ _ signers => { kind := .msg .updvo, signers, accepted }
   | .migrate _ _ signers => { kind := .msg .migrate, signers, accepted }
   | .send frm _ _ => { kind := .send, signers := [frm], accepted }
+  | .mwithdraw _ admin _ _ => { kind := .mwithdraw, signers := [admin], accepted }
   | .grant .. => { kind := .env, signers := [], accepted }
   | .revoke .. => { kind := .env, signers := [], accepted }
   | .access .. => { kind := .env, signers := [], accepted }
